@@ -309,8 +309,22 @@ inline void judge_c02(const Prob &p, const Outcome &o, const Opt &opt, int kind,
     if (worst > tol) {
         double fs = 0;
         for (int i = 0; i < p.n; i++) fs += p.w[i] * (o.x[i] - p.d[i]) * (o.x[i] - p.d[i]);
-        v.fail(fmt("%s%s: solve() is not the optimum: x%d=%.9g, certified optimum %.9g (|diff| %.3g > %.3g; oracle error bound %.2g); objective solver %.9f vs feasible oracle point %.9f",
-                   sn, ctx, wi, o.x[wi], opt.x[wi], worst, tol, opt.bound, fs, opt.fup), "suboptimal");
+        // Known finding F42 (narrow mechanistic signature): the static Solver::refine() gives up after 100 splits.  Granted only
+        // when repeating solve() on the same Solver object (each call refines for another 100 splits) reaches the certified optimum.
+        bool resumes = false; int calls = 1;
+        if (kind == STATIC) {
+            Live<NSvpsc> L(p, false);
+            for (; calls <= 64 && !resumes; calls++) {
+                Outcome oo = L.call(true);
+                if (oo.threwUnsat || oo.threwChar) break;
+                double w2 = 0;
+                for (int i = 0; i < p.n; i++) w2 = std::max(w2, std::fabs(oo.x[i] - opt.x[i]));
+                if (calls > 1 && w2 <= tol) resumes = true;
+            }
+        }
+        v.fail(fmt("%s%s: solve() is not the optimum: x%d=%.9g, certified optimum %.9g (|diff| %.3g > %.3g; oracle error bound %.2g); objective solver %.9f vs feasible oracle point %.9f%s",
+                   sn, ctx, wi, o.x[wi], opt.x[wi], worst, tol, opt.bound, fs, opt.fup, resumes ? fmt(" [a %d-fold repeated solve() reaches the optimum: refine() stopped at its 100-split limit]", calls - 1).c_str() : ""),
+               resumes ? "F42-static-refine-100-split-limit" : "suboptimal");
     }
 }
 
